@@ -85,11 +85,24 @@ func inList(xs []string, x string) bool {
 // checkSpec evaluates the property's sentences on what the implementation did.
 func checkSpec(c *Case, created map[string]bool, hs *HS, o *Obs) []Violation {
 	var vs []Violation
-	bad := func(finding, f string, a ...any) { vs = append(vs, Violation{fmt.Sprintf(f, a...), finding}) }
+	bad := func(finding, f string, a ...any) {
+		v := Violation{fmt.Sprintf(f, a...), finding}
+		for _, o := range vs {
+			if o == v {
+				return // the same sentence fails in session.get and in on_join
+			}
+		}
+		vs = append(vs, v)
+	}
 
 	var welcome map[string]any
 	var sid uint64
-	welcomed := false
+	// attached without WELCOME: the handler's non-blocking send found the client's queue full
+	welcomed := o.Returned && o.AttachErr == ""
+	welcomeSeen := false
+	if welcomed {
+		sid = o.SIDFromList
+	}
 	lastIsAbort := false
 	var chalMethod, chal string
 	for _, s := range o.Sent {
@@ -97,6 +110,7 @@ func checkSpec(c *Case, created map[string]bool, hs *HS, o *Obs) []Violation {
 		switch s[0] {
 		case "welcome":
 			welcomed = true
+			welcomeSeen = true
 			sid, _ = s[1].(uint64)
 			welcome, _ = s[2].(map[string]any)
 		case "abort":
@@ -189,7 +203,7 @@ func checkSpec(c *Case, created map[string]bool, hs *HS, o *Obs) []Violation {
 			bad("", "WELCOME although no offered method %v has a configured authenticator", specOffered(details))
 			return vs
 		}
-		if welcome["authmethod"] != method {
+		if welcomeSeen && welcome["authmethod"] != method {
 			bad("", "WELCOME says authmethod %v, the first offered method with an authenticator is %q", welcome["authmethod"], method)
 		}
 		expect["authmethod"] = method
@@ -306,12 +320,11 @@ func checkSpec(c *Case, created map[string]bool, hs *HS, o *Obs) []Violation {
 			want, fixed := expect[k]
 			if fixed {
 				if key(got[k]) != key(want) {
-					hv, smuggled := details[k]
-					f := ""
-					if smuggled && key(hv) == key(got[k]) {
-						f = FindingSmuggle
+					note := ""
+					if hv, smuggled := details[k]; smuggled && key(hv) == key(got[k]) {
+						note = " (the recorded value is the one the client wrote into HELLO)"
 					}
-					bad(f, "recorded %s is %s, the router/authenticator assigned %s", k, key(got[k]), key(want))
+					bad("", "recorded %s is %s, the router/authenticator assigned %s%s", k, key(got[k]), key(want), note)
 				}
 				continue
 			}
